@@ -43,16 +43,10 @@ Lemma pay_call_origin c s ev cid b am mf md rt :
   exists i x k a g am' mf' md', nth_error (lcs (pl s)) i = Some x /\ l_pc x = PAdd2 k a g am' mf' md'.
 Proof.
   intros Hin. destruct ev; cbn [step] in *; try (destruct Hin; fail).
-  - exfalso. destruct (entry_ (pl s)) as [e|] eqn:He.
-    + destruct (find_select 0 (lcs (pl s))) as [[[i d] li]|] eqn:Hf; [|destruct Hin].
-      match type of Hin with context [apply_adv ?s1 ?i ?a] => pose proof (apply_adv_calls s1 i a cid (QPay b am mf md rt)) as HC; destruct (apply_adv s1 i a) as [s2 o2] end.
-      cbn [fst snd app] in *. destruct (HC Hin) as [H|H]; [exact (select_poll_out_no_call _ _ _ _ _ _ _ _ _ _ _ H)|].
-      destruct (select_poll_new _ _ _ _ _ _ _ _ _ _ H) as (? & ? & _ & _ & _ & _ & X). discriminate.
-    + destruct (find_select 0 _) as [[[i d] li]|] eqn:Hf; [|destruct Hin as [Hin|[]]; discriminate].
-      match type of Hin with context [apply_adv ?s1 ?i ?a] => pose proof (apply_adv_calls s1 i a cid (QPay b am mf md rt)) as HC; destruct (apply_adv s1 i a) as [s2 o2] end.
-      cbn [fst snd app] in *. destruct Hin as [Hin|Hin]; [discriminate|].
-      destruct (HC Hin) as [H|H]; [exact (select_poll_out_no_call _ _ _ _ _ _ _ _ _ _ _ H)|].
-      destruct (select_poll_new _ _ _ _ _ _ _ _ _ _ H) as (? & ? & _ & _ & _ & _ & X). discriminate.
+  - exfalso. destruct (entry_ (pl s)) as [e|] eqn:He; [destruct Hin|destruct Hin as [Hin|[]]; discriminate].
+  - exfalso. destruct (find_select 0 (lcs (pl s))) as [[[i d] li]|] eqn:Hf; [|destruct Hin].
+    destruct (apply_adv_calls _ _ _ _ _ Hin) as [H|H]; [exact (select_poll_out_no_call _ _ _ _ _ _ _ _ _ _ _ H)|].
+    destruct (select_poll_new _ _ _ _ _ _ _ _ _ _ H) as (? & ? & _ & _ & _ & _ & X). discriminate.
   - destruct (nth_error (calls s) cid0) as [cl|]; [|destruct Hin]. destruct (c_st cl); try (destruct Hin; fail).
     destruct (node_exec (nd s) (c_rpc cl) f). destruct Hin.
   - destruct (nth_error (calls s) cid0) as [cl|]; [|destruct Hin]. destruct (c_st cl); try (destruct Hin; fail).
@@ -157,18 +151,12 @@ Theorem fail_only_when_quiet c s ev h m :
 Proof.
   intros Hw Hin. destruct (wreach_inv c s Hw) as (_ & HC & HO & HN). pose proof (wreach_U c s Hw) as HU.
   destruct ev; cbn [step] in *; try (destruct Hin; fail).
-  - (* EvHtlc: a response needs a lifecycle in the select! *)
-    destruct (entry_ (pl s)) as [e|] eqn:He.
-    + destruct (find_select 0 (lcs (pl s))) as [[[i d] li]|] eqn:Hf; [|destruct Hin].
-      destruct (find_select_spec _ _ _ _ _ Hf) as (x & Hx & Hp & _). rewrite Nat.sub_0_r in Hx.
-      exact (select_quiet c s i x d HU HC HO HN Hx Hp).
-    + exfalso. match type of Hin with context [find_select 0 ?l] => destruct (find_select 0 l) as [[[i d] li]|] eqn:Hf end; [|destruct Hin as [Hin|[]]; discriminate].
-      destruct (find_select_spec _ _ _ _ _ Hf) as (x & Hx & Hp & _). rewrite Nat.sub_0_r in Hx.
-      destruct (Nat.lt_ge_cases i (length (lcs (pl s)))) as [Hlt|Hge].
-      * rewrite nth_error_app1 in Hx by exact Hlt. unfold InvU in HU. rewrite He in HU.
-        pose proof (n_att_zero_none _ HU i x Hx) as Ax. rewrite Hp in Ax. discriminate.
-      * rewrite nth_error_app2 in Hx by exact Hge. destruct (i - length (lcs (pl s)))%nat as [|k0]; cbn in Hx; [|destruct k0; discriminate].
-        inversion Hx; subst x. discriminate.
+  - (* EvHtlc: answers nobody *)
+    exfalso. destruct (entry_ (pl s)) as [e|] eqn:He; [destruct Hin|destruct Hin as [Hin|[]]; discriminate].
+  - (* EvPoll: a response needs a lifecycle in the select! *)
+    destruct (find_select 0 (lcs (pl s))) as [[[i d] li]|] eqn:Hf; [|destruct Hin].
+    destruct (find_select_spec _ _ _ _ _ Hf) as (x & Hx & Hp & _). rewrite Nat.sub_0_r in Hx.
+    exact (select_quiet c s i x d HU HC HO HN Hx Hp).
   - destruct (nth_error (calls s) cid) as [cl|]; [|destruct Hin]. destruct (c_st cl); try (destruct Hin; fail).
     destruct (node_exec (nd s) (c_rpc cl) f). destruct Hin.
   - (* EvDeliver *)
@@ -311,29 +299,17 @@ Lemma step_clean c s ev :
 Proof.
   intros HU HC HN Hnp. destruct ev; cbn [step]; try (split; [intros []|exact Hnp]).
   - (* EvHtlc *)
-    destruct (entry_ (pl s)) as [e|] eqn:He.
-    + destruct (find_select 0 (lcs (pl s))) as [[[i d] li]|] eqn:Hf; [|split; [intros []|exact Hnp]].
-      destruct (find_select_spec _ _ _ _ _ Hf) as (x & Hx & _). rewrite Nat.sub_0_r in Hx.
-      match goal with |- context [apply_adv ?s1 ?i ?aa] =>
-        pose proof (apply_adv_clean s1 i aa x Hx Hnp) as G; destruct (select_poll_clean c li (length (calls s)) (height s) (now s) d (e_handle c e h) true (next_att (pl s))) as (C1 & C2);
-        specialize (G C1 C2); destruct (apply_adv s1 i aa) as [s2 o2] end.
-      exact G.
-    + match goal with |- context [find_select 0 ?l] => destruct (find_select 0 l) as [[[i d] li]|] eqn:Hf end.
-      * destruct (find_select_spec _ _ _ _ _ Hf) as (x & Hx & _). rewrite Nat.sub_0_r in Hx.
-        match goal with |- context [apply_adv ?s1 ?i ?aa] =>
-          assert (Hnp1 : NoPan s1) end.
-        { intros j y Hy. cbn [pl lcs] in Hy. destruct (Nat.lt_ge_cases j (length (lcs (pl s)))) as [Hlt|Hge].
-          - rewrite nth_error_app1 in Hy by exact Hlt. exact (Hnp j y Hy).
-          - rewrite nth_error_app2 in Hy by exact Hge. destruct (j - length (lcs (pl s)))%nat as [|k0]; cbn in Hy; [|destruct k0; discriminate]. inversion Hy; subst. discriminate. }
-        match goal with |- context [apply_adv ?s1 ?i ?aa] =>
-          pose proof (apply_adv_clean s1 i aa x Hx Hnp1) as G;
-          destruct (select_poll_clean c li (length (calls s ++ mk_calls [QListState])) (height s) (now s) d (e_handle c (new_entry h) h) true (next_att (pl s))) as (C1 & C2);
-          specialize (G C1 C2); destruct (apply_adv s1 i aa) as [s2 o2] end.
-        cbn [fst snd] in *. split; [|exact (proj2 G)]. intros [H|H]; [discriminate|exact (proj1 G H)].
-      * split; [intros [H|[]]; discriminate|].
-        intros j y Hy. cbn [fst pl lcs] in Hy. destruct (Nat.lt_ge_cases j (length (lcs (pl s)))) as [Hlt|Hge].
-        -- rewrite nth_error_app1 in Hy by exact Hlt. exact (Hnp j y Hy).
-        -- rewrite nth_error_app2 in Hy by exact Hge. destruct (j - length (lcs (pl s)))%nat as [|k0]; cbn in Hy; [|destruct k0; discriminate]. inversion Hy; subst. discriminate.
+    destruct (entry_ (pl s)) as [e|] eqn:He; [split; [intros []|exact Hnp]|].
+    split; [intros [H|[]]; discriminate|].
+    intros j y Hy. cbn [fst pl lcs] in Hy. destruct (Nat.lt_ge_cases j (length (lcs (pl s)))) as [Hlt|Hge].
+    + rewrite nth_error_app1 in Hy by exact Hlt. exact (Hnp j y Hy).
+    + rewrite nth_error_app2 in Hy by exact Hge. destruct (j - length (lcs (pl s)))%nat as [|k0]; cbn in Hy; [|destruct k0; discriminate]. inversion Hy; subst. discriminate.
+  - (* EvPoll *)
+    destruct (find_select 0 (lcs (pl s))) as [[[i d] li]|] eqn:Hf; [|split; [intros []|exact Hnp]].
+    destruct (find_select_spec _ _ _ _ _ Hf) as (x & Hx & Hp & _). rewrite Nat.sub_0_r in Hx.
+    destruct (entry_ (pl s)) as [en|] eqn:Ee; [|exfalso; exact (InvU_attached_entry s i x HU Hx ltac:(rewrite Hp; reflexivity) Ee)].
+    destruct (select_poll_clean c li (length (calls s)) (height s) (now s) d en sel (next_att (pl s))) as (C1 & C2).
+    exact (apply_adv_clean s i _ x Hx Hnp C1 C2).
   - destruct (nth_error (calls s) cid) as [cl|]; [|split; [intros []|exact Hnp]]. destruct (c_st cl); try (split; [intros []|exact Hnp]).
     destruct (node_exec (nd s) (c_rpc cl) f). split; [intros []|exact Hnp].
   - (* EvDeliver *)
@@ -421,22 +397,13 @@ Qed.
 Theorem step_InvW c s ev : InvW s -> InvW (fst (step c s ev)).
 Proof.
   intros HW. destruct ev; cbn [step]; try exact HW.
-  - assert (HW1 : forall e1 nl, (forall kk w, l_pc nl <> PWait kk w) ->
-        InvW {| nd := nd s; pl := {| entry_ := e1; lcs := lcs (pl s) ++ [nl]; next_att := next_att (pl s) |}; calls := calls s ++ mk_calls [QListState]; now := now s; height := height s |}).
-    { intros e1 nl Hnl j y kk Hy. cbn [pl lcs] in Hy. destruct (Nat.lt_ge_cases j (length (lcs (pl s)))) as [Hlt|Hge].
-      - rewrite nth_error_app1 in Hy by exact Hlt. exact (HW j y kk Hy).
-      - rewrite nth_error_app2 in Hy by exact Hge. destruct (j - length (lcs (pl s)))%nat as [|k0]; cbn in Hy; [|destruct k0; discriminate]. inversion Hy; subst. apply Hnl. }
-    destruct (entry_ (pl s)) as [e|] eqn:He.
-    + destruct (find_select 0 (lcs (pl s))) as [[[i d] li]|] eqn:Hf; [|exact HW].
-      destruct (find_select_spec _ _ _ _ _ Hf) as (x & Hx & _). rewrite Nat.sub_0_r in Hx.
-      match goal with |- context [apply_adv ?s1 ?i ?aa] =>
-        pose proof (apply_adv_InvW s1 i aa x Hx HW (fun kk => select_poll_not_wait _ _ _ _ _ _ _ _ _ kk _)) as G; destruct (apply_adv s1 i aa) as [s2 o2] end.
-      exact G.
-    + match goal with |- context [find_select 0 ?l] => destruct (find_select 0 l) as [[[i d] li]|] eqn:Hf end; [|apply HW1; intros; discriminate].
-      destruct (find_select_spec _ _ _ _ _ Hf) as (x & Hx & _). rewrite Nat.sub_0_r in Hx.
-      match goal with |- context [apply_adv ?s1 ?i ?aa] =>
-        pose proof (apply_adv_InvW s1 i aa x Hx ltac:(apply HW1; intros; discriminate) (fun kk => select_poll_not_wait _ _ _ _ _ _ _ _ _ kk _)) as G; destruct (apply_adv s1 i aa) as [s2 o2] end.
-      exact G.
+  - destruct (entry_ (pl s)) as [e|] eqn:He; [exact HW|].
+    intros j y kk Hy. cbn [fst pl lcs] in Hy. destruct (Nat.lt_ge_cases j (length (lcs (pl s)))) as [Hlt|Hge].
+    + rewrite nth_error_app1 in Hy by exact Hlt. exact (HW j y kk Hy).
+    + rewrite nth_error_app2 in Hy by exact Hge. destruct (j - length (lcs (pl s)))%nat as [|k0]; cbn in Hy; [|destruct k0; discriminate]. inversion Hy; subst. discriminate.
+  - destruct (find_select 0 (lcs (pl s))) as [[[i d] li]|] eqn:Hf; [|exact HW].
+    destruct (find_select_spec _ _ _ _ _ Hf) as (x & Hx & _). rewrite Nat.sub_0_r in Hx.
+    exact (apply_adv_InvW s i _ x Hx HW (fun kk => select_poll_not_wait _ _ _ _ _ _ _ _ _ kk _)).
   - destruct (nth_error (calls s) cid) as [cl|]; [|exact HW]. destruct (c_st cl); try exact HW. destruct (node_exec (nd s) (c_rpc cl) f). exact HW.
   - destruct (nth_error (calls s) cid) as [cl|] eqn:Hcl; [|exact HW]. destruct (c_st cl) eqn:Hst; try exact HW.
     destruct (find_owner c 0 (lcs (pl s)) cid y sel (entry_ (pl s)) (length (calls s)) (height s) (now s) (next_att (pl s))) as [[i a]|] eqn:Hf; [|exact HW].
@@ -528,10 +495,8 @@ Qed.
 Lemma has_done_step c s ev p : has_done p (parts (nd s)) -> has_done p (parts (nd (fst (step c s ev)))).
 Proof.
   intros H. destruct ev; cbn [step].
-  - destruct (entry_ (pl s)); [destruct (find_select 0 (lcs (pl s))) as [[[i d] li]|]|match goal with |- context [find_select 0 ?l] => destruct (find_select 0 l) as [[[i d] li]|] end];
-      try exact H;
-      match goal with |- context [apply_adv ?s1 ?i ?a] => change (has_done p (parts (nd (fst (let '(s2, o2) := apply_adv s1 i a in (s2, o2)))))) || idtac end;
-      match goal with |- context [apply_adv ?s1 ?i ?a] => unfold apply_adv end; cbn; exact H.
+  - destruct (entry_ (pl s)); exact H.
+  - destruct (find_select 0 (lcs (pl s))) as [[[i d] li]|]; [|exact H]. unfold apply_adv. cbn. exact H.
   - destruct (nth_error (calls s) cid) as [cl|]; [|exact H]. destruct (c_st cl); try exact H.
     pose proof (node_exec_parts (nd s) (c_rpc cl) f) as Hp. destruct (node_exec (nd s) (c_rpc cl) f) as [n' y]. cbn in *. rewrite Hp. exact H.
   - destruct (nth_error (calls s) cid) as [cl|]; [|exact H]. destruct (c_st cl); try exact H.
@@ -590,20 +555,18 @@ Theorem htlc_held_or_answered c s h :
   (exists en, entry_ (pl (fst (step c s (EvHtlc h)))) = Some en /\ In h (listeners en)) \/
   (exists r, In (OResp (hid h) r) (snd (step c s (EvHtlc h)))).
 Proof.
-  cbn [step].
-  assert (G : forall s1 i li d e0 outs0, 
-            let a := select_poll c li (length (calls s1)) (height s) (now s) d (Some (e_handle c e0 h)) true (next_att (pl s)) in
-            (exists en, entry_ (pl (fst (let '(s2, o2) := apply_adv s1 i a in (s2, outs0 ++ o2)))) = Some en /\ In h (listeners en)) \/
-            (exists r, In (OResp (hid h) r) (snd (let '(s2, o2) := apply_adv s1 i a in (s2, outs0 ++ o2))))).
-  { intros s1 i li d e0 outs0 a.
-    destruct (select_poll_held_or_answered c li (length (calls s1)) (height s) (now s) d (e_handle c e0 h) true (next_att (pl s))) as [(en' & He & Hl)|(r & Hr)].
-    - left. exists en'. unfold apply_adv. cbn [fst pl entry_]. split; [exact He|]. rewrite Hl, e_handle_listeners. left; reflexivity.
-    - right. exists r. unfold apply_adv. cbn [snd]. apply in_or_app. right. apply in_or_app. left. apply Hr. rewrite e_handle_listeners. left; reflexivity. }
-  destruct (entry_ (pl s)) as [e|].
-  - destruct (find_select 0 (lcs (pl s))) as [[[i d] li]|].
-    + match goal with |- context [apply_adv ?s1 _ _] => apply (G s1 i li d e []) end.
-    + left. eexists. split; [reflexivity|]. rewrite e_handle_listeners. left; reflexivity.
-  - match goal with |- context [find_select 0 ?l] => destruct (find_select 0 l) as [[[i d] li]|] end.
-    + match goal with |- context [apply_adv ?s1 _ _] => apply (G s1 i li d (new_entry h) [OCall (length (calls s)) QListState]) end.
-    + left. eexists. split; [reflexivity|]. rewrite e_handle_listeners. left; reflexivity.
+  left. cbn [step]. destruct (entry_ (pl s)) as [e|]; eexists; (split; [reflexivity|]); rewrite e_handle_listeners; left; reflexivity.
+Qed.
+
+(* ... and when the lifecycle then looks at its queues, the set either stays held or every held HTLC is answered *)
+Theorem poll_held_or_answered c s sel en :
+  entry_ (pl s) = Some en ->
+  (exists en', entry_ (pl (fst (step c s (EvPoll sel)))) = Some en' /\ listeners en' = listeners en) \/
+  (exists r, forall h, In h (listeners en) -> In (OResp (hid h) r) (snd (step c s (EvPoll sel)))).
+Proof.
+  intros He. cbn [step]. destruct (find_select 0 (lcs (pl s))) as [[[i d] li]|]; [|left; exists en; auto].
+  rewrite He.
+  destruct (select_poll_held_or_answered c li (length (calls s)) (height s) (now s) d en sel (next_att (pl s))) as [(en' & He' & Hl)|(r & Hr)].
+  - left. exists en'. unfold apply_adv. cbn [fst pl entry_]. auto.
+  - right. exists r. intros h Hh. unfold apply_adv. cbn [snd]. apply in_or_app. left. exact (Hr h Hh).
 Qed.
